@@ -87,6 +87,12 @@ def dispatch(E, f, args, node):
     qual = f.qual
     if f.kind == 'method':
         h = METHODS.get(qual)
+        if h is None and isinstance(f.bound, Obj) and qual.startswith('bycycle.') and not E.spec_mode:
+            # a method of the object under analysis: the defining class (own or inherited) may have a contract
+            owner = E.sources.method_owner(qual)
+            if owner is not None and owner in E.contracts and not E.contracts[owner].get('inline'):
+                return call_contract(E, owner, CallArgs([f.bound] + list(args.pos), dict(args.kw), list(args.star_kw)), node,
+                                     self_first=True)
         if h is None:
             if isinstance(f.bound, Obj) and qual.startswith('bycycle.') and qual.split('.')[-1].startswith('_') \
                     and not qual.split('.')[-1].startswith('__') and not E.spec_mode:
@@ -331,9 +337,14 @@ def _as_optdict(E, v):
     return v
 
 
-def call_contract(E, qual, args, node):
+def call_contract(E, qual, args, node, self_first=False):
     c0 = E.contracts[qual]
-    bound = bind_params(E, qual, args, node)
+    if self_first:
+        slf = args.pos[0]
+        bound = bind_params(E, qual, CallArgs(list(args.pos[1:]), dict(args.kw), list(args.star_kw)), node)
+        bound['self'] = slf
+    else:
+        bound = bind_params(E, qual, args, node)
     wants_optdict = {p for case in (c0.get('cases') or [{}]) for p, T in dict(c0.get('params', {}), **case.get('params', {})).items()
                      if T == 'optdict'}
     for p in wants_optdict:
@@ -366,6 +377,8 @@ def call_contract(E, qual, args, node):
     pre_heap = dict(E.st.heap)
     from .engine import _sdict_snapshot, _frame_snapshot
     saved_entry = (E.st.entry_heap, E.entry_env, E.entry_sdicts, E.entry_frames)
+    saved_objs = getattr(E, 'entry_objs', {})
+    E.entry_objs = {k: dict(v.attrs) for k, v in bound.items() if isinstance(v, Obj)}
     E.st.entry_heap = pre_heap
     E.entry_env = dict(bound)
     E.entry_sdicts = {k: _sdict_snapshot(v) for k, v in bound.items() if isinstance(v, SDict)}
@@ -388,6 +401,7 @@ def call_contract(E, qual, args, node):
                 continue          # a clause about the callee's own ghost state: not visible (and not needed) at the call site
     finally:
         E.st.entry_heap, E.entry_env, E.entry_sdicts, E.entry_frames = saved_entry
+        E.entry_objs = saved_objs
     E.st.calls.append((qual, bound, result))
     return result
 
